@@ -145,7 +145,7 @@ pub fn run(tier: Tier) -> ! {
     };
     // (i) untagged: every text x every {N,W} vector
     let sigma1 = ['a', ' ', '/', '\\', 'あ', '𠀋'];
-    let texts = gen::strings(&sigma1, 1, tier.pick(4, 5));
+    let texts = gen::strings(&sigma1, 1, tier.pick(5, 6));
     texts.par_iter().for_each(|text| {
         for labels in gen::vectors(2, text.len() - 1) {
             let nt = labels.iter().filter(|&&l| l == 1).count() + 1;
@@ -219,7 +219,7 @@ pub fn run(tier: Tier) -> ! {
     });
     // (iv) idempotence on every accepted string
     let sigma4 = ['a', ' ', '/', '\\', 'あ'];
-    let l4 = tier.pick(7, 9);
+    let l4 = tier.pick(9, 12);
     let accepted = std::sync::atomic::AtomicU64::new(0);
     for len in 0..=l4 {
         let total = sigma4.len().pow(len as u32);
